@@ -287,7 +287,7 @@ func runC05(c *report.Ctx) {
 	}
 
 	// ---- (3) gates --------------------------------------------------------------------------------------------------
-	ruleKeyUseGated(c)
+	ruleKeyUseGated(c, false)
 	c.Rule("refusal-alters-nothing", "stores that unlock the manager or cache private material happen only after a passphrase check succeeded on that path", 5)
 	am := p.Type(pkgKeystore, "AddrManager")
 	ma := p.Type(pkgKeystore, "ManagedAddress")
